@@ -4,3 +4,4 @@ import MudExec.OpsB
 import MudExec.OpsC
 import MudExec.OpsD
 import MudExec.OpsE
+import MudExec.OpsF
